@@ -147,6 +147,18 @@ CHECKS = {
         "trusted_base": ["Model/Parse.v hand written; std string functions modelled by tables"],
         "assumptions": ["case mapping and White_Space tables as listed in Model/Parse.v"],
     },
+
+    "C19": {
+        "harness": ["c19"], "level": "proof",
+        "technique": "Coq theorems over exact rationals (telescoping products: stored strategy = polynomially weighted mean; regret = weighted sum with weights in (0,1], monotone, 1 after the discount phase; walker alternation) + per-run replay of update sequences through the public add_regret / add_policy / next",
+        "level_text": "Theorems over the executable model (exact rationals) of Memory::add_regret/add_policy, Discount::policy, the phase switch and Profile::walker, with the exponent and the phase boundary regenerated from the source and the code shapes of discount.rs / memory.rs / phase.rs / profile.rs pinned by the translator. Per run: 400 (3000) sequences of 1-2000 epochs at one information set through the public API; stored values compared with the model (exact rationals up to 40 epochs, the same recurrences in double precision beyond) and with the closed forms, at relative 1e-3 (f32 accumulation); the discount factors the implementation applies are checked against (t/(t+1))^gamma and the (0,1] / =1-after-phase claims; traverser alternation checked exactly.",
+        "level_note": "Trusted: Coq kernel, model (validated per run), translator (shapes + parameters), extraction + glue (incl. binary32-to-rational conversion), harness + hooks (Profile::verif_from_rows, verif_memory, verif_set_epochs). libm powf is trusted; f32 rounding drift is tested at 1e-3, not proved. The property is stated at the API level it names (one update per epoch): Blueprint::solve applies add_policy once per (tree, information set), so an information set met k times in a batch is discounted k times - outside the statement, recorded in DESIGN.md.",
+        "rule": "disc: start epoch, initial stored values, per-epoch regret and strategy inputs (mixed signs, zeros, constants), -> the discount factors used, final stored regret and policy, walker per epoch. Sequence lengths 1, 2-6, 5-39, 380-409 (across the end of the discount phase), 2000, 1-600. A case is trivial when it is replayed in double precision only (more than 40 epochs)",
+        "exhaustive": {"quick": False, "thorough": False},
+        "explanation": "update sequences vs extracted rational model and closed forms",
+        "trusted_base": ["Model/Discount.v hand written"],
+        "assumptions": ["one update per epoch at the information set", "finite f32 inputs"],
+    },
     "C15": {
         "harness": "c15", "level": "proof",
         "technique": "Coq theorems (round trips, injectivity, key-set NoDup by reflection) over an executable codec model + per-run model/implementation correspondence on integer codes",
